@@ -4,6 +4,7 @@ import (
 	"fmt"
 	"io"
 	"os"
+	"sync"
 )
 
 // Pixel represents the physical location of a TES
@@ -76,6 +77,9 @@ func readMap(filename string) (*Map, error) {
 type MapServer struct {
 	Map           *Map
 	clientUpdates chan<- ClientUpdate
+	// mapLock guards Map: Load and Unload requests of different connections run concurrently with each
+	// other and with the WriteControl requests that read the map. (A loaded Map is never modified.)
+	mapLock sync.Mutex
 }
 
 func newMapServer() *MapServer {
@@ -89,6 +93,8 @@ func (ms *MapServer) Load(filename *string, reply *bool) error {
 	if err != nil {
 		return err
 	}
+	ms.mapLock.Lock()
+	defer ms.mapLock.Unlock()
 	ms.Map = m
 	ms.broadcastMap()
 	return nil
@@ -96,12 +102,22 @@ func (ms *MapServer) Load(filename *string, reply *bool) error {
 
 // Unload forgets the current map file
 func (ms *MapServer) Unload(zero *int, reply *bool) error {
+	ms.mapLock.Lock()
+	defer ms.mapLock.Unlock()
 	ms.Map = nil
 	ms.broadcastMap()
 	*reply = true
 	return nil
 }
 
+// currentMap returns the loaded map (nil if none) for use outside the map server.
+func (ms *MapServer) currentMap() *Map {
+	ms.mapLock.Lock()
+	defer ms.mapLock.Unlock()
+	return ms.Map
+}
+
+// broadcastMap tells the clients about the current map; the caller holds mapLock.
 func (ms *MapServer) broadcastMap() {
 	if ms.Map == nil {
 		ms.clientUpdates <- ClientUpdate{"TESMAPFILE", "no map file"}
